@@ -38,7 +38,7 @@ static int enc(const struct cstl_dlist_node *p)
 }
 static int cmp(const void *a, const void *b, void *p)
 {
-    (void)p;
+    e_check_priv(p);
     return ((const struct el *)a)->val - ((const struct el *)b)->val;
 }
 
@@ -90,7 +90,7 @@ static int cb_count, cb_stop, cb_erase, cb_list;
 static int visit_cb(void *e, void *p)
 {
     int id = id_of_el(e);
-    (void)p;
+    e_check_priv(p);
     cb_count++;
     ev_add("%d", id);
     if (cb_erase && id > 0) {
@@ -118,20 +118,20 @@ static void drv_apply(const vop_t *op, jb_t *res)
     case 4: cstl_dlist_insert(&L[a[0]], &pool[a[1]], &pool[a[2]]); jb_puts(res, ",\"ret\":0"); break;
     case 5: cstl_dlist_erase(&L[a[0]], &pool[a[1]]); jb_puts(res, ",\"ret\":0"); break;
     case 6: cstl_dlist_reverse(&L[a[0]]); jb_puts(res, ",\"ret\":0"); break;
-    case 7: cstl_dlist_sort(&L[a[0]], cmp, NULL); jb_puts(res, ",\"ret\":0"); break;
+    case 7: cstl_dlist_sort(&L[a[0]], cmp, E_PRIV); jb_puts(res, ",\"ret\":0"); break;
     case 8: cstl_dlist_concat(&L[a[0]], &L[a[1]]); jb_puts(res, ",\"ret\":0"); break;
     case 9: cstl_dlist_swap(&L[a[0]], &L[a[1]]); jb_puts(res, ",\"ret\":0"); break;
     case 10: {
         struct el probe; void *r;
         memset(&probe, 0, sizeof probe); probe.val = a[1];
-        r = cstl_dlist_find(&L[a[0]], &probe, cmp, NULL, a[2] ? CSTL_DLIST_FOREACH_DIR_REV : CSTL_DLIST_FOREACH_DIR_FWD);
+        r = cstl_dlist_find(&L[a[0]], &probe, cmp, E_PRIV, a[2] ? CSTL_DLIST_FOREACH_DIR_REV : CSTL_DLIST_FOREACH_DIR_FWD);
         jb_printf(res, ",\"ret\":%d", id_of_el(r));
         break;
     }
     case 11: {
         int r;
         cb_count = 0; cb_stop = a[2]; cb_erase = a[3]; cb_list = a[0];
-        r = cstl_dlist_foreach(&L[a[0]], visit_cb, NULL, a[1] ? CSTL_DLIST_FOREACH_DIR_REV : CSTL_DLIST_FOREACH_DIR_FWD);
+        r = cstl_dlist_foreach(&L[a[0]], visit_cb, E_PRIV, a[1] ? CSTL_DLIST_FOREACH_DIR_REV : CSTL_DLIST_FOREACH_DIR_FWD);
         jb_printf(res, ",\"ret\":%d", r);
         break;
     }
